@@ -1544,7 +1544,9 @@ class Compiler:
             yield EmitText(node.prefix + node.name + node.suffix)
 
     def visit_End(self, node):
-        yield EmitText(node.prefix + node.name + node.space + node.suffix)
+        # The suffix of a parsed end tag already begins with the space.
+        space = "" if node.suffix.startswith(node.space) else node.space
+        yield EmitText(node.prefix + node.name + space + node.suffix)
 
     def visit_Attribute(self, node):
         attr_format = (node.space + node.name + node.eq +
